@@ -6,6 +6,7 @@ from ..oracles.core import ALNUM, ASCII_DIGITS, ASCII_UPPER, norm
 from ..runner import Rec
 from ._shared import gen, oracle
 
+_REGCODES = {}
 FIELD_ERR = {"bank_code": "InvalidBankCode", "branch_code": "InvalidBranchCode", "account_code": "InvalidAccountCode"}
 _CL = {"n": set(ASCII_DIGITS), "a": set(ASCII_UPPER), "c": set(ALNUM), "e": set(" ")}
 
@@ -273,6 +274,25 @@ def shard(arg):
         for b, a in [(rng.choice(lb or [""]), rng.choice(la or [""])) for _ in range(4)]:
             res, exp = check(rec, cc, b, r, a, "source-literals")
             rec.case("source-literals-" + res, (cc, b, r, a, "lit"))
+    # bank codes exactly as the bank registry lists them for the country (whatever their width: some registries key their rows by
+    # bank+branch, or bank+branch+check digit), with and without a branch code of their own
+    from ..oracles import reg as oreg
+    if "listed" not in _REGCODES:
+        per = {}
+        for (c_, code) in oreg.index_by_code(oreg.load_banks()):
+            per.setdefault(c_, []).append(code)
+        _REGCODES["listed"] = {c_: sorted(v) for c_, v in per.items()}
+    listed = _REGCODES["listed"].get(cc, [])
+    by_len = {}
+    for code in listed:
+        by_len.setdefault(len(code), []).append(code)
+    for ln, codes in sorted(by_len.items()):
+        for code in rng.sample(codes, min(len(codes), 12 if tier == "quick" else 200)):
+            a = conforming(rng, fi["account_code"][2], w["account_code"])
+            for r in ("", conforming(rng, fi["branch_code"][2], w["branch_code"])) if w["branch_code"] else ("",):
+                res, exp = check(rec, cc, code, r, a, "registry-listed-code")
+                rec.case("registry-listed-code-" + ("overlong" if exp["must_raise"] else ("split" if exp.get("split") else res)),
+                         (cc, code, r, a, "listed"))
     touch(cc, rng)
     # after other uses of the country (parsing, accessor reads, lookups, random draws): empty / whitespace-only components again
     for b, r, a in (("", "", ""), (" ", "", "\t"), ("", "", "1"), ("1", "", "")):
@@ -430,5 +450,5 @@ def run(ctx):
     ctx.extra["success_per_country_min"] = min(ctx.rec.classes.get(f"success-{cc}", 0) for cc in with_pos)
     from ._configs import stage as _config_stage
     _config_stage(ctx, ['generate'])
-    ctx.require_classes("source-literals-ok", "synthetic-fits", "synthetic-split", "synthetic-overlong", "grid-overlong", "grid-split", "grid-ok", "draw-ok", "draw-err-overlong", "unknown-or-no-positions",
+    ctx.require_classes("registry-listed-code-ok", "registry-listed-code-overlong", "registry-listed-code-split", "source-literals-ok", "synthetic-fits", "synthetic-split", "synthetic-overlong", "grid-overlong", "grid-split", "grid-ok", "draw-ok", "draw-err-overlong", "unknown-or-no-positions",
                         "grouped-ok", "grouped-err", "component-grouped", "component-alien", "component-ws", "component-ws-only", "component-lengthening", "after-touch-ok", "after-touch-err", "hyp-ok", *[f"success-{cc}" for cc in with_pos])
